@@ -768,6 +768,17 @@ func runAll(c *Ctx, sh *shared, tmp string) {
 		}()
 		defer cwg.Wait()
 	}
+	if only == "" || strings.Contains("remote-output-behind-record", only) {
+		var swg sync.WaitGroup
+		swg.Add(1)
+		go func() {
+			defer swg.Done()
+			guarded(sh, "remote-output-behind-record", func(s *shared, again string) {
+				runShortMirror(c, s, filepath.Join(tmp, "output-behind-record"+again))
+			})
+		}()
+		defer swg.Wait()
+	}
 	// the file-system calls of one submission under strace, for a local and for a remote unit
 	for _, sc := range scenarios {
 		if (sc.Name == "local-finished" || sc.Name == "remote-unbound") && (only == "" || strings.Contains(sc.Name, only)) {
